@@ -152,7 +152,10 @@ func (ph *peerHandler) startIfDisconnected() {
 	ph.mu.Lock()
 	defer ph.mu.Unlock()
 
-	if ph.reconnectTimer == nil && ph.host.Network().Connectedness(ph.peer) != network.Connected {
+	// Never (re)arm the timer of a stopped handler: stop() cancels ph.ctx
+	// before it takes ph.mu, so a goroutine that gets here after Stop or
+	// RemovePeer sees the cancellation.
+	if ph.reconnectTimer == nil && ph.ctx.Err() == nil && ph.host.Network().Connectedness(ph.peer) != network.Connected {
 		logger.Debugw("disconnected from peer", "peer", ph.peer)
 		// Always start with a short timeout so we can stagger things a bit.
 		ph.reconnectTimer = time.AfterFunc(ph.nextBackoff(), ph.reconnect)
